@@ -1,6 +1,7 @@
 use std::collections::{HashMap, HashSet};
 
-use combine::{Parser, choice, many1, optional};
+use combine::error::StreamError;
+use combine::{Parser, attempt, choice, easy, many1, optional};
 use redis_protocol::resp3;
 use redis_protocol::resp3::types::BytesFrame;
 use sierradb::StreamId;
@@ -150,10 +151,20 @@ enum Selector {
 impl Selector {
     // <stream_id_1> [PARTITION_KEY <pk_1>] <stream_id_2> [PARTITION_KEY <pk_2>]
     fn parser<'a>() -> impl Parser<FrameStream<'a>, Output = Self> + 'a {
-        many1::<HashSet<_>, _, _>((
-            stream_id(),
+        // The list of stream ids ends at the FROM / WINDOW clause: any string is a valid stream
+        // id, so without this `ESUB user-123 FROM 50 WINDOW 100` subscribed to the five streams
+        // "user-123", "FROM", "50", "WINDOW" and "100" from LATEST.
+        many1::<HashSet<_>, _, _>(attempt((
+            stream_id().and_then(|stream_id| {
+                let name = stream_id.to_string();
+                if name.eq_ignore_ascii_case("FROM") || name.eq_ignore_ascii_case("WINDOW") {
+                    Err(easy::Error::message_format("reserved word"))
+                } else {
+                    Ok(stream_id)
+                }
+            }),
             optional(keyword("PARTITION_KEY").with(partition_key())),
-        ))
+        )))
         .map(|stream_ids| {
             if stream_ids.len() == 1 {
                 // SAFETY: We just verified the set has exactly one element
